@@ -148,7 +148,7 @@ func allGroups(specs []bspec) []*group {
 // full = thorough tier on a core backend. bodyLen is the length of the byte
 // stream the reader delivers (the blob, or the whole multipart body, in which
 // the part's data starts at dataStart).
-func modesFor(path string, v variant, full bool, bodyLen, dataStart int) []string {
+func modesFor(path string, v variant, kind string, full bool, bodyLen, dataStart int) []string {
 	var m []string
 	switch path {
 	case "receive", "direct", "put", "nohash":
@@ -168,7 +168,7 @@ func modesFor(path string, v variant, full bool, bodyLen, dataStart int) []strin
 		switch {
 		case full && v.Reduced:
 			m = append(m, errModes(0, bodyLen, true)...)
-		case full:
+		case full && (strings.HasPrefix(kind, "sha224") || kind == "foo-0"):
 			// from just before the part's data to the end of the body
 			m = append(m, errModes(max(0, dataStart-4), bodyLen, false)...)
 		case v.Core:
@@ -236,7 +236,7 @@ func (gr *group) cases() []*tcase {
 				h := bytes.Index(body, []byte(`name="`+R.String()+`"`))
 				dataStart = h + bytes.Index(body[h:], []byte("\r\n\r\n")) + 4
 			}
-			for _, mode := range modesFor(gr.Path, v, full, bodyLen, dataStart) {
+			for _, mode := range modesFor(gr.Path, v, kind, full, bodyLen, dataStart) {
 				out = append(out, &tcase{Scenario: "small", Tier: vk.Tier(), Backend: gr.bs.name, Path: gr.Path, TLen: gr.TLen, Pre: gr.Pre, Chunk: gr.Chunk,
 					Off: v.Name, RefKind: kind, Ref: R.String(), Mode: mode, T: T, O: v.Data, R: R, matchFull: refMatches(R, v.Data)})
 			}
@@ -501,6 +501,10 @@ func TestCheck(t *testing.T) {
 			}
 			res.EngineError("group %s: %v", gr.name(), err)
 		}
+	}
+	if os.Getenv("VERIF_VERBOSE") != "" {
+		fds, _ := os.ReadDir("/proc/self/fd")
+		fmt.Println("open fds at the end:", len(fds))
 	}
 	for _, sc := range res.Scenarios {
 		sc.Bound = boundText(sc.Name)
